@@ -60,8 +60,16 @@ def driver_bin():
 SPEC_SPELLINGS = os.path.join(VERIF, "spec", "spellings.txt")
 
 
+BLACKBOX = set()        # trees for which this process has fallen back to black-box mode
+
+
 def build_impl(repo, need_binary=False, log=None):
     """cargo build of the harness against the repo's current working tree (+ the calculator binary)"""
+    if os.path.abspath(repo) in BLACKBOX:
+        ok, out = build_binary(repo)
+        if not ok:
+            raise InfraError("the calculator binary does not build\n" + out[-3000:])
+        return
     with Lock(".build.lock"):
         tmpl = open(os.path.join(HARNESS, "Cargo.toml.in")).read().replace("@REPO@", os.path.abspath(repo))
         toml = os.path.join(HARNESS, "Cargo.toml")
@@ -78,6 +86,10 @@ def build_impl(repo, need_binary=False, log=None):
             time.sleep(3)
             rc, out = sh(["cargo", "build", "--release", "--quiet"], cwd=HARNESS, env=env, timeout=1200)
         if rc != 0:
+            try:
+                open(os.path.join(WORK, "last-build-error.txt"), "w").write("%s\n%s\n%s" % (time.ctime(), repo, out))
+            except OSError:
+                pass
             raise InfraError("the harness does not build against %s (does the tree compile?)\n%s" % (repo, out[-3000:]))
         if need_binary:
             env2 = dict(ENV, CARGO_TARGET_DIR=os.path.join(WORK, "repo-target-" + repo_key(repo)))
@@ -87,6 +99,25 @@ def build_impl(repo, need_binary=False, log=None):
 
 
 _TABLES_LOCK = None
+
+
+def build_binary(repo):
+    """cargo build of the calculator binary of the tree alone (used when the harness cannot be built against it)"""
+    with Lock(".build.lock"):
+        env2 = dict(ENV, CARGO_TARGET_DIR=os.path.join(WORK, "repo-target-" + repo_key(repo)))
+        rc, out = sh(["cargo", "build", "--quiet", "--offline", "-p", "calculator"], cwd=repo, env=env2, timeout=1200)
+        return rc == 0, out
+
+
+def last_good_dump():
+    """the most recent dump of a tree the harness did build against (black-box mode keeps the generated tables as they are)"""
+    cands = [os.path.join(WORK, f) for f in os.listdir(WORK) if f.startswith("dump-") and f.endswith(".json")] if os.path.isdir(WORK) else []
+    pref = os.path.join(WORK, "dump-default.json")
+    if os.path.exists(pref):
+        return json.load(open(pref))
+    if cands:
+        return json.load(open(max(cands, key=os.path.getmtime)))
+    raise InfraError("no table dump available for black-box mode (run setup.sh on a tree the harness builds against)")
 
 
 def dump_tables(repo):
